@@ -63,7 +63,7 @@ class YowStackBuilder(object):
         return self
 
     def build(self):
-        return YowStack(self.layers, reversed = False, props = self._props)
+        return YowStack(self.layers, reversed = False, props = dict(self._props))
 
     @staticmethod
     def getDefaultLayers(groups = True, media = True, privacy = True, profiles = True):
